@@ -138,9 +138,12 @@ def timeout(duration, func, *args, **kwargs):
         # from the old one fails for classes with other signatures
         # (e.g., SyntaxError loses its position, ExceptionGroup raises).
         e = ei[1]
-        e.__traceback__ = ei[2]
-        e.exc_info = target_thread.exc_info
-        raise e
+        try:
+            e.exc_info = target_thread.exc_info
+        except Exception:
+            # A student's exception class may refuse new attributes
+            pass
+        raise e.with_traceback(ei[2])
 
 
 # =========================================================================
